@@ -213,6 +213,24 @@ def manysc_family():
     return out
 
 
+def nulclass_family():
+    """NUL sharing its byte equivalence class with other bytes (flex files NUL as the *last* character of the alphabet, so the
+    shared class is numbered by its other members), with 2 ... 9 classes in all: the table generators decide from the class
+    numbering whether NUL needs transitions of its own"""
+    c = P.chr_
+    out = []
+    lows = [P.plus(P.ccl([P.cr(97, 122)])), P.plus(P.ccl([P.cr(48, 57)])), P.ccl([P.cr(65, 70)]), c(32), c(33), c(35), c(36)]
+    for n in range(0, 8):
+        for hi in (P.ccl([P.cr(128, 255), P.cb(0)]), P.ccl([P.cr(1, 127)], neg=True)):
+            for wrap in (P.plus, lambda a: a):
+                if n % 2 and wrap is not P.plus: continue
+                rules = [rule(x) for x in lows[:n]] + [rule(P.ccl([P.cr(1, 127)])), rule(wrap(hi))]
+                rs = ruleset(rules, name="hw-nulclass-%d-%d" % (n, len(out)))
+                rs["profile"] = "nul"
+                out.append(rs)
+    return out
+
+
 def handwritten():
     """transcriptions of shapes that matter (anchors, trailing context, start
     conditions, REJECT order), independent of any seed"""
